@@ -31,7 +31,10 @@ MemHash(seed, a) == ((a * 197) + ((a \div 256) * 91) + (seed * 57) + ((a \div 3)
 \* byte a "hash" port device returns for its k-th read (k = 0,1,.. since it was attached: c.nin)
 IoHash(seed, port, k) == ((port * 31) + (k * 101) + (seed * 7) + 5) % 256
 
-Base(dev, a) == IF dev.mk = "hash" THEN MemHash(dev.seed, a) ELSE dev.val
+\* "image": a program image (sequence dev.img) loaded at dev.seed over a background of dev.val
+Base(dev, a) == IF dev.mk = "hash" THEN MemHash(dev.seed, a)
+                ELSE IF dev.mk = "image" /\ W(a - dev.seed) < Len(dev.img) THEN dev.img[W(a - dev.seed) + 1]
+                ELSE dev.val
 
 InOvl(c, a) == c.ovl.n > 0 /\ W(a - c.ovl.start) < c.ovl.n
 
